@@ -100,6 +100,10 @@ def get_attr(eng, o, attr, node):
             if eng.contract.missing_attr_raises:
                 raise RaiseExc("AttributeError", (), node, implicit=True)
             raise EngineError("object has no field %s at %s" % (attr, eng._anchor(node)))
+        if k == "path":
+            if attr == "parts":
+                return eng.get_field(o, "parts")
+            return BuiltinMethod(o, attr)
         if k in ("stream", "ostream", "list", "dict", "bytearray", "set"):
             if k in ("stream", "ostream") and attr == "name":
                 return eng.get_field(o, "name") if eng.has_field(o, "name") else None
@@ -123,6 +127,8 @@ def get_attr(eng, o, attr, node):
         if o.dotted == "os" and attr == "name":
             return "posix"
         if o.dotted == "os" and attr == "sep":
+            return "/"
+        if o.dotted == "posixpath" and attr == "sep":
             return "/"
         return ExtRef(o.dotted + "." + attr)
     if isinstance(o, PyObjV):
@@ -711,6 +717,10 @@ def call_method(eng, o, name, args, kwargs, node):
             return dict_method(eng, o, name, args, kwargs, node)
         if k == "bytearray":
             return bytearray_method(eng, o, name, args, kwargs, node)
+        if k == "path":
+            if name == "is_absolute":
+                return eng.get_field(o, "absolute")
+            raise EngineError("pathlib method %s is not modelled" % name)
         if k == "set":
             if name == "add":
                 eng.set_field(o, "items", tuple(eng.get_field(o, "items")) + (args[0],))
@@ -1777,6 +1787,37 @@ def _and_(eng, args, kwargs, node):
 @ext("operator.or_", "or_")
 def _or_(eng, args, kwargs, node):
     return binop(eng, ast.BitOr(), args[0], args[1], node)
+
+
+def path_parts_fn():
+    return V.uf("pathlib_parts", V.seq_sort("char"), V.seq_sort("str"))
+
+
+def path_abs_fn():
+    return V.uf("pathlib_is_absolute", V.seq_sort("char"), z3.BoolSort())
+
+
+@ext("pathlib.Path", "pathlib.PurePath", "pathlib.PurePosixPath")
+def _pathlib_path(eng, args, kwargs, node):
+    """pathlib.Path(s): assumed contract of pathlib's parser (DESIGN 6.3): `parts` is a function of the string,
+    contains no '' and no '.' component, is_absolute() is a function of the string"""
+    if eng.abstract and not getattr(eng.contract, "model_pathlib", False):
+        return eng.opaque_call("pathlib.Path", None, args, kwargs, node)
+    if len(args) != 1:
+        raise EngineError("pathlib.Path with %d arguments" % len(args))
+    s0 = args[0]
+    if isinstance(s0, Ref) and eng.kind(s0) == "path":
+        return s0
+    if not is_str(s0):
+        raise RaiseExc("TypeError", (), node, implicit=True)
+    ss = V.to_seq(s0)
+    parts = SSeq(path_parts_fn()(ss.t), "str", "tuple")
+    isabs = SBool(path_abs_fn()(ss.t))
+    from .contract import ForAll
+
+    dot = V.to_seq(".")
+    eng.register_forall(ForAll(lambda k: V.And(V.Not(V.eq(V.nth(parts, k), "")), V.Not(V.eq(V.nth(parts, k), "."))), guard=lambda k: V.And(k >= 0, k < V.L(parts)), over=parts))
+    return eng.alloc("path", parts=parts, absolute=isabs, text=s0)
 
 
 @ext("io.BytesIO", "BytesIO")
